@@ -3,7 +3,10 @@ package props
 import (
 	"fmt"
 	"math"
+	"os"
 	"runtime"
+	"strconv"
+	"strings"
 	"time"
 
 	"pipelined.dev/signal"
@@ -83,6 +86,17 @@ func runC14(c *core.Ctx) {
 					c14Case(c, t, ch, k, w[0], w[1], caseID)
 				}
 			}
+		}
+	}
+	// interleaved positions at and beyond 2^31: an int8 buffer of 2 x (2^30+4)
+	// samples (2 GiB of address space of which only the touched pages become
+	// resident; skipped, and said so, when the machine reports less than 8 GiB
+	// of available memory)
+	if c.Mine(3) && c.Want("beyond-2^31-samples") {
+		if availableMemoryKiB() < 8<<20 {
+			c.Obs("positions_beyond_2^31_skipped_for_lack_of_memory", 1)
+		} else {
+			c14Huge(c)
 		}
 	}
 	// views taken BEFORE the parent is mutated must keep addressing the
@@ -367,3 +381,73 @@ func c14Case(c *core.Ctx, t *dyn.TypeOps, ch, k, s, e int, caseID string) {
 		report(c, inst+"|final", caseID, ps, detail)
 	}
 }
+
+// availableMemoryKiB reads MemAvailable from /proc/meminfo (0 when unknown).
+func availableMemoryKiB() int64 {
+	data, err := os.ReadFile("/proc/meminfo")
+	if err != nil {
+		return 0
+	}
+	for _, line := range strings.Split(string(data), "\n") {
+		if strings.HasPrefix(line, "MemAvailable:") {
+			f := strings.Fields(line)
+			if len(f) >= 2 {
+				n, _ := strconv.ParseInt(f[1], 10, 64)
+				return n
+			}
+		}
+	}
+	return 0
+}
+
+func c14Huge(c *core.Ctx) {
+	t := dyn.Types[0] // int8
+	const ch = 2
+	frames := 1<<30 + 4
+	inst := "Channel[" + t.Name + "]"
+	caseID := "beyond-2^31-samples"
+	d := map[string]any{"type": t.Name, "channels": ch, "frames": frames}
+	if p, msg := core.Guard(func() {
+		b := t.Alloc(signal.Allocator{Channels: ch, Length: frames, Capacity: frames})
+		for cc := 0; cc < ch; cc++ {
+			view := b.Channel(cc)
+			if view.Length() != frames || view.Capacity() != frames || view.Channels() != 1 {
+				c.Violate(inst+"|shape", caseID, fmt.Sprintf("view of channel %d reports %d channels, length %d, capacity %d", cc, view.Channels(), view.Length(), view.Capacity()), d)
+				return
+			}
+			for k, i := range []int{1<<30 - 2, 1<<30 - 1, 1 << 30, 1<<30 + 1, 1<<30 + 3} {
+				pos := ch*i + cc
+				c.Eval(1)
+				c.Distinct(core.NewHash().Str(caseID).Int(cc).Int(i).Sum())
+				if got := view.BufferIndex(0, i); got != pos {
+					c.Violate(inst+"|index", caseID, fmt.Sprintf("view of channel %d: BufferIndex(%d) = %d, the parent's position is %d", cc, i, got, pos), d)
+					return
+				}
+				v := t.FromInt(int64(1 + k + 10*cc))
+				view.SetSample(i, v)
+				if got := b.Sample(pos); !got.Same(v) {
+					c.Violate(inst+"|write", caseID, fmt.Sprintf("wrote %v through the view of channel %d at index %d; the parent's position %d holds %v", v, cc, i, pos, got), d)
+					return
+				}
+				for _, other := range []int{pos - 1, pos + 1, pos - ch, pos & (1<<31 - 1), pos & (1<<32 - 1) & ^(1 << 31)} {
+					if other != pos && other >= 0 && other < ch*frames && !b.Sample(other).IsZero() && !c14HugeWritten[other] {
+						c.Violate(inst+"|write-elsewhere", caseID, fmt.Sprintf("writing index %d of channel %d changed the parent's position %d", i, cc, other), d)
+						return
+					}
+				}
+				c14HugeWritten[pos] = true
+				w2 := t.FromInt(int64(-(1 + k + 10*cc)))
+				b.SetSample(pos, w2)
+				if got := view.Sample(i); !got.Same(w2) {
+					c.Violate(inst+"|read", caseID, fmt.Sprintf("the parent's position %d holds %v; the view of channel %d reads %v at index %d", pos, w2, cc, got, i), d)
+					return
+				}
+				c.Obs("positions_at_and_beyond_2^31_checked", 1)
+			}
+		}
+	}); p {
+		c.Violate(inst+"|panic", caseID, "channel view access near position 2^31 panicked: "+msg, d)
+	}
+}
+
+var c14HugeWritten = map[int]bool{}
